@@ -1,8 +1,10 @@
 package main
 
 import (
+	"encoding/json"
 	"fmt"
 	"os"
+	"os/exec"
 	"path/filepath"
 	"strings"
 )
@@ -19,7 +21,7 @@ func (w *World) writeReplay(o *Options, g *group, dir string) string {
 			continue
 		}
 		fmt.Fprintf(&sb, "\npath-instance: %s\nverdict: %s\nclause: %s\nposition: %s\nsmt: %s\nsolver: %s\n", m.Name, m.Verdict, m.Text, m.Pos, m.SMTFile, m.Backend)
-		if m.Verdict == "refuted" {
+		if m.Verdict == "refuted" || m.Verdict == "undecided" {
 			if r := w.tryReplay(o, m); r != nil {
 				sb.WriteString(r.Text)
 				if r.Reproduced {
@@ -55,6 +57,83 @@ type replayResult struct {
 	Reproduced bool
 }
 
-func (w *World) tryReplay(o *Options, m *Obligation) *replayResult { return nil }
+// tryReplay: path-only counterexamples (typestate, ordering) have no input to feed back; where a scenario driver
+// is registered for the obligation (scenarios/map.json) it is run against the real code. A driver that FAILS
+// has reproduced the violation.
+func (w *World) tryReplay(o *Options, m *Obligation) *replayResult {
+	return w.scenarioReplay(o, m.Name)
+}
 
-func (w *World) extraChecks(o *Options) []*FuncResult { return nil }
+type scenarioMap struct {
+	Obligation string `json:"obligation"`
+	Test       string `json:"test"`
+}
+
+var scenarioCache = map[string]*replayResult{}
+
+func (w *World) scenarioReplay(o *Options, obligation string) *replayResult {
+	dir := filepath.Join(filepath.Dir(o.Findings), "scenarios")
+	data, err := os.ReadFile(filepath.Join(dir, "map.json"))
+	if err != nil {
+		return nil
+	}
+	var ms []scenarioMap
+	if json.Unmarshal(data, &ms) != nil {
+		return nil
+	}
+	for _, sm := range ms {
+		if !strings.Contains(obligation, sm.Obligation) {
+			continue
+		}
+		key := sm.Test + "@" + o.Repo
+		if r, ok := scenarioCache[key]; ok {
+			return r
+		}
+		run := dir
+		if o.Repo != "/repo" {
+			// scenarios against a scratch copy: same drivers, module replaced by that copy
+			tmp, err := os.MkdirTemp("", "gocv-scn-")
+			if err != nil {
+				return nil
+			}
+			defer os.RemoveAll(tmp)
+			ents, _ := os.ReadDir(dir)
+			for _, en := range ents {
+				b, _ := os.ReadFile(filepath.Join(dir, en.Name()))
+				if en.Name() == "go.mod" {
+					b = []byte(strings.ReplaceAll(string(b), "=> /repo", "=> "+o.Repo))
+				}
+				os.WriteFile(filepath.Join(tmp, en.Name()), b, 0o644)
+			}
+			run = tmp
+		}
+		cmd := exec.Command("go", "test", "-count=1", "-vet=off", "-timeout", "120s", "-run", "^"+sm.Test+"$", ".")
+		cmd.Dir = run
+		cmd.Env = append(os.Environ(), "GOFLAGS=-mod=mod", "GOPROXY=off", "GOSUMDB=off", "GOTOOLCHAIN=local")
+		out, err := cmd.CombinedOutput()
+		res := &replayResult{}
+		txt := string(out)
+		if len(txt) > 3000 {
+			txt = txt[len(txt)-3000:]
+		}
+		switch {
+		case err != nil && strings.Contains(string(out), "--- FAIL"):
+			res.Reproduced = true
+			res.Text = fmt.Sprintf("scenario driver %s (scenarios/) FAILED on the real code, i.e. the violation reproduces:\n%s\nreplay with: cd /verif/scenarios && go test -run '^%s$' .\n", sm.Test, txt, sm.Test)
+		case err != nil:
+			res.Text = fmt.Sprintf("scenario driver %s could not be run:\n%s\n", sm.Test, txt)
+		default:
+			res.Text = fmt.Sprintf("scenario driver %s passed on the real code (violation not reproduced by this driver)\n", sm.Test)
+		}
+		scenarioCache[key] = res
+		return res
+	}
+	return nil
+}
+
+func (w *World) extraChecks(o *Options) []*FuncResult {
+	if o.Prop == "C09" {
+		return w.runSweep(o)
+	}
+	return nil
+}
